@@ -4,11 +4,12 @@ C04 / C10 — model of the client negotiation state machine of `QXmppOutgoingCli
 base/QXmppStreamManagement.cpp `StreamAckManager`, and the parts of `QXmppClient` /
 `QXmppRosterManager` that react to `connected`).
 
-The model follows the code that exists (tree after the fixes e0bbad9, fa0779c, 7771c2d, 7a677f2, e363fe9, c590ae4, 7c60ff5, a739aa9):
+The model follows the code that exists (tree after the fixes e0bbad9, fa0779c, 7771c2d, 7a677f2, e363fe9, c590ae4, 7c60ff5, a739aa9, 0b10c27, fa23804):
 * `handleStream` starts XEP-0078 authentication on a header without `version` — unless TLS is required and the link is
   not encrypted: then it warns and disconnects;
-* the idle listener rejects every jabber:client element (iq, message, presence) received on an unencrypted link when TLS is
-  required (`Rejected`: error "Unexpected element received.", stream close, disconnect);
+* the idle listener rejects EVERY element but stream features and stream errors - whatever its namespace - received on an
+  unencrypted link when TLS is required (`Rejected`: error "Unexpected element received.", stream close, disconnect);
+* a white space keep-alive is ignored;
 * after the XEP-0078 field offer the `NonSaslAuthManager` stays the listener (`Accepted`) and waits for the result;
 * `handleStart` clears `bind2Bound`;
 * see-other-host closes the session (if any) and reconnects through a queued call.
@@ -392,7 +393,19 @@ def El.isStanza : El → Bool
   | .presence => true
   | _ => false
 
-/-- the idle listener after the stanza guard -/
+/-- what `handleElement` still processes on an unencrypted link when TLS is required (0b10c27): stream features and stream
+errors; the namespace of anything else does not matter -/
+def El.isStreamLevel : El → Bool
+  | .features _ => true
+  | .streamError _ => true
+  | _ => false
+
+/-- TLS is required and the link is not encrypted yet -/
+def St.preTls (s : St) : Prop := ¬ s.encrypted ∧ s.cfg.tls = .required
+
+instance (s : St) : Decidable s.preTls := by unfold St.preTls; exact inferInstance
+
+/-- the idle listener after the pre-TLS guard -/
 def idleHandle' (s : St) : El → R
   | .features f => handleFeatures s f
   | .streamError true =>
@@ -411,16 +424,17 @@ def idleHandle' (s : St) : El → R
 /-- the idle listener: `QXmppOutgoingClient::handleElement`.  No stanza is processed over an unencrypted link if TLS is
 required -/
 def idleGuarded (s : St) (e : El) : R :=
-  if e.isStanza ∧ ¬ s.encrypted ∧ s.cfg.tls = .required then reject s else idleHandle' s e
+  if ¬ e.isStreamLevel ∧ s.preTls then reject s else idleHandle' s e
 
 def idleHandle (s : St) (e : El) : R :=
   match e with
-  -- not in jabber:client, so the stanza guard does not see them, but `handleElement` processes them all the same:
-  | .xiq .getKnown => sendStanza s (.iqReply false)   -- an extension (version, disco) answers
+  -- not in jabber:client, but `handleElement` processes them all the same (once the pre-TLS guard is passed):
+  | .xiq .getKnown => if s.preTls then reject s else sendStanza s (.iqReply false)   -- an extension (version, disco) answers
   | .xiq .resultPending =>                             -- the IQ manager matches the id
+    if s.preTls then reject s else
     if s.pendingIq = 0 then reject s else ({ s with pendingIq := s.pendingIq - 1 }, [.sig (.iqDone false)])
-  | .smR => if s.ackEnabled then (s, [send s .smAck]) else (s, [])
-  | .smA => (s, [])
+  | .smR => if s.preTls then reject s else if s.ackEnabled then (s, [send s .smAck]) else (s, [])
+  | .smA => if s.preTls then reject s else (s, [])
   | _ => idleGuarded s e
 
 /-- the XEP-0078 manager looks at the tag name only: an `<iq/>` in any namespace is an IQ (never the expected one) -/
@@ -588,8 +602,8 @@ def step (s : St) : Ev → R
   | .recv e => recv s e
   | .sendIq => sendIq s
   | .recvWhitespace =>
-    -- every listener returns `Rejected` for the null element: "Unexpected element received.", disconnect
-    if s.conn ≠ .connected ∨ s.wedged then (s, []) else reject s
+    -- `handlePacketReceived` stops the ping timeout and returns (fa23804): no listener sees the null element
+    (s, [])
   | .recvPartial =>
     if s.conn ≠ .connected ∨ s.wedged then (s, []) else ({ s with wedged := true }, [])
   | .closeTail =>
